@@ -175,8 +175,8 @@ PROPS = {
 
 MANIFEST_TEXT = {
     "C01": {
-        "text": "Theorems: the CSV reader returns exactly the written records for every quoting / LF-CRLF / final-newline choice (proved over the byte-level reader model), BOM removal, lookup by header name and member lookup by name, per-row transcription of routes / stops / trips, one entity per accepted row in order, ParseStatic on any archive presenting ten tables as the composition of the ten per-file row functions over those tables (one end-to-end theorem, presentation only in the hypotheses; presentation independence as corollary), H:MM:SS (past 24:00:00) decoding, YYYYMMDD decoding for every eight-digit string (valid dates are the civil day they name, everything else is rejected: no roll-over), decimal cells certified as correctly rounded binary64 values (within half a unit in the last place, ties to even; exact arithmetic), enums by digit over the regenerated decoders; columns, required flags and the file table of the source are tied to the model's. The correspondence parses each well-formed feed under three presentations and compares every field with the model and with the generated cells.",
-        "note": "Trusted: Lean kernel, harness, zip/flate, tz database; strconv.ParseFloat is not trusted for plain decimals (every answer is certified in exact arithmetic; the certificate is validated against strconv with neighbouring bit patterns as negative controls; that exactly one pattern passes is validated that way, not proved); encoding/csv is modelled and validated (also by a dedicated random-bytes stream). C01_end_to_end composes presentation, member lookup and the ten-file composition; per-row transcription for routes, trips, stops, transfers, shape points, frequencies, stop times and calendar rows are separate theorems.",
+        "text": "Theorems: the CSV reader returns exactly the written records for every quoting / LF-CRLF / final-newline choice (proved over the byte-level reader model), BOM removal, lookup by header name and member lookup by name, per-row transcription of routes / stops / trips, one entity per accepted row in order, ParseStatic on any archive presenting ten tables as the composition of the ten per-file row functions over those tables (one end-to-end theorem, presentation only in the hypotheses; presentation independence as corollary), H:MM:SS (past 24:00:00) decoding, YYYYMMDD decoding for every eight-digit string (valid dates are the civil day they name, everything else is rejected: no roll-over), decimal cells certified as correctly rounded binary64 values (within half a unit in the last place, ties to even; exact arithmetic; at most one answer per cell is certified), enums by digit over the regenerated decoders; columns, required flags and the file table of the source are tied to the model's. The correspondence parses each well-formed feed under three presentations and compares every field with the model and with the generated cells.",
+        "note": "Trusted: Lean kernel, harness, zip/flate, tz database; strconv.ParseFloat is not trusted for plain decimals (every answer is certified in exact arithmetic; at most one answer per cell is certified - C01_float_unique, proved; that strconv's answer is the certified one is validated on every cell and by the stream FLT with neighbouring bit patterns as negative controls); encoding/csv is modelled and validated (also by a dedicated random-bytes stream). C01_end_to_end composes presentation, member lookup and the ten-file composition; per-row transcription for routes, trips, stops, transfers, shape points, frequencies, stop times and calendar rows are separate theorems.",
         "technique": "Lean 4 proof (CSV presentation round trip, per-row transcription) over regenerated schema facts + generator-truth correspondence",
     },
     "C03": {
